@@ -464,6 +464,12 @@ class Assign(Statement, AssignBase):
                 result = result | frozenset(
                         dep.name for dep in get_deps(bound))
 
+        # The loop variables are in use by this statement even if the
+        # right-hand side does not mention them: anything that hands out or
+        # disambiguates names (the code builder, the rewriting passes,
+        # fusion) needs to know about them.
+        result = result | frozenset(ident for ident, _, _ in self.loops)
+
         return result
 
     def map_expressions(self, mapper, include_lhs=True):
